@@ -50,8 +50,6 @@ _COMMON = {
     "cut_equals_distance": "all_shortest_distances(cut) with cut equal to the exact distance of some pair s != t",
     "cut_below_some_distance": "all_shortest_distances(cut) with a reachable pair beyond the cut",
     "two_edge_shortest_walk": "a pair whose every shortest walk uses >= 2 edges",
-    "heap_rebuilds": "priority_dict rebuilt its heap during a search (counted by the wrapper)",
-    "heap_stale_entries": "priority_dict.pop_smallest skipped a stale heap entry (counted by the wrapper)",
     "state_space_closed": "per-graph BFS reached a fixpoint (no new state at depth 2)",
     "history_depth_2": "a query was executed in a state left behind by a different query",
     "prepared_read": "prepared_shortest_distance read after prepare()",
@@ -326,9 +324,9 @@ def run_shard(shard, ctx):
             sampled = True
     rebuilds, stale, pops = graphs.heap_counts()
     if rebuilds > 0:
-        ctx.oblige("heap_rebuilds", rebuilds)
+        ctx.count("heap_rebuilds_seen_in_routing", rebuilds)    # informative only: a routing that uses another queue is fine
     if stale > 0:
-        ctx.oblige("heap_stale_entries", stale)
+        ctx.count("heap_stale_entries_skipped_in_routing", stale)
     ctx.count("heap_pops", pops)
 
 
